@@ -1,1 +1,226 @@
-(* stub: to be written by group Rates *)
+(* Model of RateLoader (src/fx/io/rate_loader.rs) with its cache
+   (src/fx/io/rates_cache.rs: InMemoryRatesCache, or CsvRatesCache whose text
+   round trip is the subject of Model/CrashFs.v) as a state machine over
+   look-ups inside a run and over runs.  Definitions only.
+
+   A Rust `Err` of a look-up does not roll the loader state back, so the state
+   is threaded through errors; only a panic ends everything ([Panic]). *)
+From Coq Require Import List NArith ZArith QArith Qcanon Bool.
+From ACB Require Import Base.Outcome Base.QcExtra Base.Fit Base.Arith Model.Rates.
+Import ListNotations.
+Local Open Scope Z_scope.
+
+(* association lists keyed by year: insertion conses, first match wins *)
+Fixpoint aget {A} (y : Z) (l : list (Z * A)) : option A :=
+  match l with
+  | [] => None
+  | (y', v) :: t => if y' =? y then Some v else aget y t
+  end.
+Fixpoint zmem (y : Z) (l : list Z) : bool :=
+  match l with [] => false | x :: t => (x =? y) || zmem y t end.
+
+(* what a run is given *)
+Record env : Type := {
+  e_today : Z;                     (* today_local() *)
+  e_force : bool;                  (* RateLoader.force_download *)
+  e_remote : Z -> list obs         (* observations the Bank of Canada returns for a year *)
+}.
+
+Record st : Type := {
+  s_years : list (Z * list drate);   (* RateLoader.year_rates (each map as the Vec it was made from) *)
+  s_fresh : list Z;                  (* RateLoader.fresh_loaded_years *)
+  s_cache : list (Z * list drate);   (* the RatesCache: year -> Vec<DailyRate> *)
+  s_dl : list Z                      (* years requested from the remote in this run, newest first *)
+}.
+
+Definition empty_st : st := {| s_years := []; s_fresh := []; s_cache := []; s_dl := [] |}.
+(* a new process over the same cache *)
+Definition new_run (s : st) : st :=
+  {| s_years := []; s_fresh := []; s_cache := s_cache s; s_dl := [] |}.
+
+Inductive lerr : Type :=
+| LNotYet            (* "No USD/CAD exchange rate is available for .. yet" *)
+| LCacheMissing      (* "Did not find rates for .. in cache after they were downloaded" *)
+| LNone7             (* "Could not find relevant exchange rate within the 7 preceding days" *)
+| LLookback (e : lerr). (* "Cound not retrieve exchange rates within the 7 preceding days (..)" *)
+
+(* get_remote_usd_cad_rates: download, fill, mark fresh, write the cache *)
+Definition download (e : env) (s : st) (y : Z) : res (st * list drate) :=
+  rs <- parse_all (e_remote e y) ;;
+  let rates := fill rs y (e_today e) in
+  Ok ({| s_years := s_years s;
+         s_fresh := y :: s_fresh s;
+         s_cache := (y, rates) :: s_cache s;
+         s_dl := y :: s_dl s |}, rates).
+
+(* fetch_usd_cad_rates_for_date_year *)
+Definition fetch (e : env) (s : st) (d : Z) : res (st * sum lerr (list drate)) :=
+  let y := year_of d in
+  let dl := '(s1, rates) <- download e s y ;; Ok (s1, inr rates) in
+  if e_force e then dl else
+  let fresh := zmem y (s_fresh s) in
+  match aget y (s_cache s) with
+  | Some rates =>
+      if fresh then Ok (s, inr rates)
+      else if mhas d rates then Ok (s, inr rates)
+      else dl
+  | None => if fresh then Ok (s, inl LCacheMissing) else dl
+  end.
+
+(* get_exact_usd_cad_rate.  [reval] = the year map of a year that was taken
+   from the cache (not downloaded by this process) is re-validated when the
+   requested date is missing from it; [reval = false] is the code before the
+   fix of C13, which validated only on the first access of a year. *)
+Definition exact (reval : bool) (e : env) (s : st) (d : Z)
+  : res (st * sum lerr (option drate)) :=
+  let y := year_of d in
+  let load :=
+    '(s1, r) <- fetch e s d ;;
+    match r with
+    | inl err => Ok (s1, inl err)
+    | inr rates =>
+        Ok ({| s_years := (y, rates) :: s_years s1; s_fresh := s_fresh s1;
+               s_cache := s_cache s1; s_dl := s_dl s1 |}, inr rates)
+    end in
+  '(s1, r) <- match aget y (s_years s) with
+              | None => load
+              | Some m =>
+                  if reval && negb (zmem y (s_fresh s)) && negb (mhas d m) then load
+                  else Ok (s, inr m)
+              end ;;
+  match r with
+  | inl err => Ok (s1, inl err)
+  | inr m =>
+      match mget d m with
+      | Some r => if Qceqb r 0%Qc then Ok (s1, inr None) else Ok (s1, inr (Some (d, r)))
+      | None => if e_today e <=? d then Ok (s1, inl LNotYet) else Ok (s1, inr None)
+      end
+  end.
+
+(* find_usd_cad_preceding_relevant_spot_rate: `for _ in 0..7` *)
+Fixpoint lookback (reval : bool) (n : nat) (e : env) (s : st) (d : Z)
+  : res (st * sum lerr drate) :=
+  match n with
+  | O => Ok (s, inl LNone7)
+  | S k =>
+      '(s1, r) <- exact reval e s (d - 1) ;;
+      match r with
+      | inl err => Ok (s1, inl (LLookback err))
+      | inr (Some x) => Ok (s1, inr x)
+      | inr None => lookback reval k e s1 (d - 1)
+      end
+  end.
+
+(* get_effective_usd_cad_rate *)
+Definition effective (reval : bool) (e : env) (s : st) (d : Z) : res (st * sum lerr drate) :=
+  '(s1, r) <- exact reval e s d ;;
+  match r with
+  | inl err => Ok (s1, inl err)
+  | inr (Some x) => Ok (s1, inr x)
+  | inr None => lookback reval 7 e s1 d
+  end.
+
+(* a sequence of look-ups by one loader *)
+Fixpoint lookups (reval : bool) (e : env) (s : st) (ds : list Z)
+  : res (st * list (sum lerr drate)) :=
+  match ds with
+  | [] => Ok (s, [])
+  | d :: t =>
+      '(s1, a) <- effective reval e s d ;;
+      '(s2, r) <- lookups reval e s1 t ;;
+      Ok (s2, a :: r)
+  end.
+
+(* a history: runs (each a fresh loader over the cache the previous runs left);
+   per run the answers and the download log *)
+Fixpoint history (reval : bool) (s : st) (runs : list (env * list Z))
+  : res (st * list (list (sum lerr drate) * list Z)) :=
+  match runs with
+  | [] => Ok (s, [])
+  | (e, ds) :: t =>
+      '(s1, a) <- lookups reval e (new_run s) ds ;;
+      '(s2, r) <- history reval s1 t ;;
+      Ok (s2, (a, s_dl s1) :: r)
+  end.
+
+(* ---- the application path for one file of rows (tx_loader.rs load_tx_rates
+   followed by Tx::try_from for every row) ---- *)
+Record row : Type := {
+  r_td : Z;                         (* trade date *)
+  r_cur : option currency; r_fx : option Qc;
+  r_ccur : option currency; r_cfx : option Qc
+}.
+Inductive rows_err : Type :=
+| RRate (commission : bool) (e : lerr)     (* "[Commission ]Exchange rate error: Unable to retrieve ..." *)
+| RRow (commission : bool) (e : row_err).
+
+Definition load_one (reval : bool) (e : env) (s : st) (td : Z) (cur : option currency) (fx : option Qc)
+  : res (st * sum (sum lerr row_err) (option Qc)) :=
+  match load_decide cur fx with
+  | LKeep => Ok (s, inr fx)
+  | LErr err => Ok (s, inl (inr err))
+  | LLoadUsd =>
+      '(s1, a) <- effective reval e s td ;;
+      match a with
+      | inl err => Ok (s1, inl (inl err))
+      | inr (_, r) => Ok (s1, inr (Some r))
+      end
+  end.
+
+Definition wrap_err (c : bool) (x : sum lerr row_err) : rows_err :=
+  match x with inl e => RRate c e | inr e => RRow c e end.
+
+(* phase 1: load_tx_rates fills the missing rates of every row, in row order *)
+Fixpoint load_rows (reval : bool) (e : env) (s : st) (rs : list row)
+  : res (st * sum rows_err (list row)) :=
+  match rs with
+  | [] => Ok (s, inr [])
+  | r :: t =>
+      '(s1, a) <- load_one reval e s (r_td r) (r_cur r) (r_fx r) ;;
+      match a with
+      | inl err => Ok (s1, inl (wrap_err false err))
+      | inr fx =>
+          '(s2, b) <- load_one reval e s1 (r_td r) (r_ccur r) (r_cfx r) ;;
+          match b with
+          | inl err => Ok (s2, inl (wrap_err true err))
+          | inr cfx =>
+              '(s3, rest) <- load_rows reval e s2 t ;;
+              match rest with
+              | inl err => Ok (s3, inl err)
+              | inr l => Ok (s3, inr ({| r_td := r_td r; r_cur := r_cur r; r_fx := fx;
+                                         r_ccur := r_ccur r; r_cfx := cfx |} :: l))
+              end
+          end
+      end
+  end.
+
+(* phase 2: buy_or_sell_common_attrs_from_csv_tx; the rates attached to the
+   transaction: (transaction rate, commission rate) *)
+Definition row_rates (r : row) : sum rows_err (Qc * Qc) :=
+  match valid_rate (r_cur r) (r_fx r) with
+  | inl err => inl (RRow false err)
+  | inr x =>
+      let tx := match x with Some (_, q) => q | None => 1%Qc end in
+      match valid_rate (r_ccur r) (r_cfx r) with
+      | inl err => inl (RRow true err)
+      | inr (Some (_, q)) => inr (tx, q)
+      | inr None => inr (tx, tx)
+      end
+  end.
+Fixpoint rows_rates (rs : list row) : sum rows_err (list (Qc * Qc)) :=
+  match rs with
+  | [] => inr []
+  | r :: t =>
+      match row_rates r with
+      | inl err => inl err
+      | inr x => match rows_rates t with inl err => inl err | inr l => inr (x :: l) end
+      end
+  end.
+
+Definition app_rows (reval : bool) (e : env) (rs : list row)
+  : res (sum rows_err (list (Qc * Qc))) :=
+  '(_, a) <- load_rows reval e empty_st rs ;;
+  match a with
+  | inl err => Ok (inl err)
+  | inr l => Ok (rows_rates l)
+  end.
